@@ -3,7 +3,7 @@ from vlib import sesscheck
 
 ID = 'C11'
 LEVEL = 'exploration'
-RULE = 'Nested-key part (vlib/c11_nested.py): Shelf(PrimaryKey(room, no)) / Box(PrimaryKey(shelf, pos)) / Item(box) with generated rows; Box objects are reached by navigation, attribute-path and tuple queries, Box[room, no, pos], Box[shelf, pos], get() and selects in a drawn order and must be one Python object per key with the right key. Main part: Same program space as C09 with identity checks weighted up: for every object the program holds, Entity[pk], get(pk), get(unique=value), select(), select_by_sql() and an in-session pickle round trip must return the very same Python object, and get(unique=v) must return the current holder according to the reference store. Non-trivial = an identity check executed after a key change, delete or failed creation in the same session; distinct by program hash. A share of the programs (one third; one half for C11/C13/C15) comes from the hub family: every relationship starts at one entity, with cascading/unlinking relationships declared around a refusing one, populated, and then aimed operations (pending updates of children, pending removals on the hub collections, new children with explicit keys) precede the delete of the hub, so that deletes refused after part of their cascade are common.'
+RULE = 'Nested-key histories (vlib/nested_hist.py): sessions over Shelf(PrimaryKey(room, no)) / Box(PrimaryKey(shelf, pos)) / Tag(PrimaryKey(box)) / Item(box) that create chains of new objects whose keys reference each other, flush single objects or everything, delete with cascades, re-create deleted keys and look objects up; a dict model decides each call; this check reports the identity category. Nested-key part (vlib/c11_nested.py): Shelf(PrimaryKey(room, no)) / Box(PrimaryKey(shelf, pos)) / Item(box) with generated rows; Box objects are reached by navigation, attribute-path and tuple queries, Box[room, no, pos], Box[shelf, pos], get() and selects in a drawn order and must be one Python object per key with the right key. Main part: Same program space as C09 with identity checks weighted up: for every object the program holds, Entity[pk], get(pk), get(unique=value), select(), select_by_sql() and an in-session pickle round trip must return the very same Python object, and get(unique=v) must return the current holder according to the reference store. Non-trivial = an identity check executed after a key change, delete or failed creation in the same session; distinct by program hash. A share of the programs (one third; one half for C11/C13/C15) comes from the hub family: every relationship starts at one entity, with cascading/unlinking relationships declared around a refusing one, populated, and then aimed operations (pending updates of children, pending removals on the hub collections, new children with explicit keys) precede the delete of the hub, so that deletes refused after part of their cascade are common.'
 ASSUMPTIONS = ['live SQLite (in-memory) with foreign keys enforced immediately',
                'reference store vlib/refstore.py written from the documented relationship/cascade/key semantics (DESIGN.md section 7a)',
                'table and column names are taken from the mapping metadata (names only)']
@@ -32,9 +32,23 @@ def run(ctx):
         if msg:
             ctx.fail(case, msg)
     ctx.run_test(tn, dict(case=c11_nested.cases()), max_examples=ctx.scale(150, 1500), name='C11_nested')
+    if ctx.violation is not None:
+        return
+    from vlib import nested_hist
+
+    def th(case):
+        msg = nested_hist.judge(case, 'identity')
+        nops = sum(len(s_['ops']) for s_ in case['sessions'])
+        ctx.case(key=case, nontrivial=nops >= 4, classes=['nested_hist'], sample={'sessions': [[o[0] for o in s_['ops']] for s_ in case['sessions']]} if nops >= 6 else None)
+        if msg:
+            ctx.fail(case, msg)
+    ctx.run_test(th, dict(case=nested_hist.cases()), max_examples=ctx.scale(150, 1500), name='C11_nested_hist')
 
 
 def replay(case):
+    if case.get('kind') == 'nested_hist':
+        from vlib import nested_hist
+        return nested_hist.judge(case, 'identity')
     if case.get('kind') == 'nested':
         from vlib import c11_nested
         return c11_nested.judge(case)
